@@ -259,6 +259,64 @@ func extractGrpc() {
 	})
 	g.def("headerTests", "List (String × String)", leanPairs(tests))
 
+	// the content-type test: the package-level helper adapter.Header hands a field's Value to
+	// (isGRPCContentType). Its string literals (the base media type), the library calls it makes
+	// (strings.HasPrefix), the character literals it compares a byte with for equality (the
+	// separators that may follow the base) and whether it also accepts the exact length.
+	var ctHelper *ast.FuncDecl
+	if hdr != nil {
+		ast.Inspect(hdr, func(n ast.Node) bool {
+			c, ok := n.(*ast.CallExpr)
+			if !ok || ctHelper != nil {
+				return ctHelper == nil
+			}
+			id, ok := c.Fun.(*ast.Ident)
+			if !ok {
+				return true
+			}
+			for _, a := range c.Args {
+				if fieldOf(a) == "Value" {
+					ctHelper = funcDecl(f, "", id.Name)
+				}
+			}
+			return ctHelper == nil
+		})
+	}
+	var ctLits, ctSeps, ctCalls []string
+	ctExact := false
+	if ctHelper != nil && ctHelper.Body != nil {
+		ast.Inspect(ctHelper.Body, func(n ast.Node) bool {
+			switch x := n.(type) {
+			case *ast.BasicLit:
+				if x.Kind == token.STRING {
+					if v, err := strconv.Unquote(x.Value); err == nil {
+						ctLits = append(ctLits, v)
+					}
+				}
+			case *ast.BinaryExpr:
+				if x.Op == token.EQL {
+					if lit, ok := x.Y.(*ast.BasicLit); ok && lit.Kind == token.CHAR {
+						if r, _, _, err := strconv.UnquoteChar(strings.Trim(lit.Value, "'"), '\''); err == nil {
+							ctSeps = append(ctSeps, string(r))
+						}
+					}
+					if strings.HasPrefix(src(x.X), "len(") && strings.HasPrefix(src(x.Y), "len(") {
+						ctExact = true
+					}
+				}
+			case *ast.CallExpr:
+				if _, ok := x.Fun.(*ast.SelectorExpr); ok {
+					ctCalls = append(ctCalls, src(x.Fun))
+				}
+			}
+			return true
+		})
+	}
+	g.def("ctLiterals", "List String", leanList(ctLits))
+	g.def("ctCalls", "List String", leanList(ctCalls))
+	g.def("ctSeparators", "List String", leanList(ctSeps))
+	g.def("ctExactLen", "Bool", map[bool]string{true: "true", false: "false"}[ctExact])
+
 	data := funcDecl(f, "adapter", "Data")
 	// `a.buffer.Len() < N`: the prefix length
 	pl := "0"
